@@ -7,7 +7,7 @@
      (encstr <stringhex> <marshalhex>)
      (fexp <appendfloathex> <marshalhex>)                                                          *)
 From Coq Require Import List ZArith NArith Bool String.
-From Verif Require Import common.Sexp gen.GenTables gen.GenFlagTable c08.LR c08.Flags c08.Utf8Dec c08.Preview.
+From Verif Require Import common.Sexp c08.FastSexp gen.GenTables gen.GenFlagTable c08.LR c08.Flags c08.Utf8Dec c08.Preview.
 Import ListNotations.
 Open Scope Z_scope.
 
@@ -205,7 +205,7 @@ Definition run_sexp (e : sexp) : sexp :=
   end.
 
 Definition run_line (l : list N) : list N :=
-  match parse l with
+  match parse_fast l with
   | Some e => print (run_sexp e)
   | None => codes "unparsable"
   end.
